@@ -427,7 +427,7 @@ func init() {
 			}})
 	}
 
-	register(&Rule{ID: "C09.counterguards", Props: []string{"C09"}, Floor: 1,
+	register(&Rule{ID: "C09.counterguards", Props: []string{"C09", "C14"}, Floor: 1,
 		Doc: "the counter that decides between 'advance the clock to block time' and 'wait for a transfer' counts exactly the assets that can be charged",
 		Run: func(e *Engine, r *RuleRun) {
 			fn := r.Need("keeper.Keeper.DeductAssetsWithTakeRate")
